@@ -347,3 +347,22 @@ def std_norm_cdf(z):
 
 def std_norm_pdf(z):
     return math.exp(-0.5 * z * z) / math.sqrt(2 * math.pi)
+
+
+def normal_expect_nodes(mu, Sig, n, h=0.25, zmax=8.5):
+    """Nodes [P,D] / weights [P] for E_{N(mu,Sig)}[f] by tensor composite
+    Gauss-Legendre in the whitened variable z (panels of width h on [-zmax,zmax],
+    n nodes per panel, standard normal density folded into the weights).  Unlike
+    Gauss-Hermite this resolves features much narrower than the density."""
+    D = len(mu)
+    z1, w1 = gauss_legendre_piecewise(list(np.arange(-zmax, zmax + 1e-9, h)), n)
+    w1 = w1 * np.exp(-0.5 * z1 * z1) / math.sqrt(2 * math.pi)
+    keep = w1 > 1e-30
+    z1, w1 = z1[keep], w1[keep]
+    L = np.linalg.cholesky(np.atleast_2d(Sig))
+    grids = np.meshgrid(*([z1] * D), indexing="ij")
+    Z = np.stack([g.ravel() for g in grids], axis=1)
+    W = np.ones(len(Z))
+    for g in np.meshgrid(*([w1] * D), indexing="ij"):
+        W = W * g.ravel()
+    return np.asarray(mu) + Z @ L.T, W
